@@ -284,6 +284,32 @@ theorem instWbd_operands_irrelevant (i : Inst) (ia : List Bool) :
   apply Bool.eq_iff_iff.2
   rw [instWbd_iff, instWbd_iff]
 
+/-- a terminator (or symbol op) is never trivially removable, **whatever effects it declares** — also a
+`Pure` / `NoMemoryEffect` one (`scf.yield`, `affine.yield`, `llvm.return`): its operands are live.
+Looking at the memory effects alone (`result_only_effects`) is not the flag of the analysis. -/
+theorem instWbd_terminator_or_symbol (i : Inst) (h : i.term = true ∨ i.sym = true) : instWbd i = false := by
+  cases hw : instWbd i with
+  | false => rfl
+  | true =>
+    obtain ⟨ht, hs, _⟩ := (instWbd_iff i).1 hw
+    rcases h with h | h <;> simp_all
+
+/-- `resultOnlyEffects` and `instWbd` differ exactly on terminators / symbol ops with harmless effects -/
+theorem resultOnlyEffects_ne_instWbd :
+    ∃ i : Inst, resultOnlyEffects i = true ∧ instWbd i = false :=
+  ⟨{ term := true, traits := [Trait.noEffect] }, by decide, by decide⟩
+
+/-- an op declaring a plain `MemoryAllocEffect`, `MemoryFreeEffect` or `MemoryWriteEffect` (the `ALLOC`
+effect of the trait names no value, so it is not an allocation of the op's own results: `memref.alloc`,
+`memref.alloca`; `memref.dealloc`) is not removable: the values feeding its operands are live -/
+theorem instWbd_alloc_free_write (i : Inst)
+    (h : Trait.alloc ∈ i.traits ∨ Trait.free ∈ i.traits ∨ Trait.write ∈ i.traits) : instWbd i = false := by
+  cases hw : instWbd i with
+  | false => rfl
+  | true =>
+    obtain ⟨_, _, _, hk, _⟩ := (instWbd_iff i).1 hw
+    rcases h with h | h | h <;> · have := hk _ h; simp at this
+
 /-- two instances of one class (same traits, same terminator/symbol status) with different answers:
 a class-level memo of `would_be_trivially_dead` is wrong for one of them whichever it stores -/
 theorem instWbd_not_class_constant :
